@@ -53,16 +53,36 @@ Qed.
 Lemma step_out_of_order c p o : p <> PClosed -> in_order c p o = false ->
   step c p o = (PClosed, [OClose]).
 Proof.
-  intros Hp Hi. destruct p as [s k| |]; [| |congruence].
-  - destruct o as [nv key|t se kl| | |]; cbn [step in_order] in *.
+  intros Hp Hi. destruct p as [s k outst| |]; [| |congruence].
+  - destruct o as [nv key|t se kl|id| |]; cbn [step in_order] in *.
     + destruct s; try reflexivity; discriminate.
     + destruct s; try reflexivity; discriminate.
     + rewrite Hi. reflexivity.
     + reflexivity.
     + reflexivity.
-  - destruct o as [nv key|t se kl| | |]; cbn [step in_order] in *; try reflexivity.
+  - destruct o as [nv key|t se kl|id| |]; cbn [step in_order] in *; try reflexivity.
     + rewrite Hi. reflexivity.
     + discriminate.
+Qed.
+
+Lemma proceed_online c k : effective_online c = true -> provider c = false ->
+  proceed c k = (PInit EncRequestSent k [], [OEncRequest]).
+Proof. intros H1 H2. unfold proceed. rewrite H1, H2. reflexivity. Qed.
+
+(* a plugin response either only changes the set of outstanding ids, or - as the last awaited answer
+   in the waiting state - runs the continuation of handleServerLogin *)
+Lemma handle_plugin_cases c s k outst id :
+  (exists outst', handle_plugin c s k outst id = (PInit s k outst', [])) \/
+  (s = LoginReceived /\ handle_plugin c s k outst id = proceed c k).
+Proof.
+  unfold handle_plugin. destruct (existsb (Nat.eqb id) outst); [|left; eexists; reflexivity].
+  destruct (remove_id id outst) as [|a r]; [|left; eexists; reflexivity].
+  destruct s; try (left; eexists; reflexivity). right. auto.
+Qed.
+
+Lemma proceed_phase c k : fst (proceed c k) = PInit EncRequestSent k [] \/ fst (proceed c k) = PAuthWait \/ fst (proceed c k) = PClosed.
+Proof.
+  unfold proceed, activate. destruct (effective_online c), (provider c), (has_ack c); cbn; auto.
 Qed.
 
 Theorem out_of_order_closes_run c pre o post :
@@ -75,35 +95,41 @@ Proof.
   rewrite concat_app. cbn [concat]. rewrite H2, H1. auto.
 Qed.
 
-(* a second login start, and a second encryption response, are out of order whatever happened in between *)
+(* a second login start is out of order whatever happened in between *)
 Lemma not_login_expected_after c : forall ops p,
-  (forall k, p <> PInit LoginExpected k) -> forall k, fst (run_from c p ops) <> PInit LoginExpected k.
+  (forall k o, p <> PInit LoginExpected k o) -> forall k o, fst (run_from c p ops) <> PInit LoginExpected k o.
 Proof.
-  induction ops as [|o r IH]; intros p Hp k; [apply Hp|].
-  rewrite run_from_cons. cbn [fst]. apply IH. intros k' E.
-  destruct p as [s k0| |]; cbn [step] in E.
-  - destruct o as [nv key|t se kl| | |].
-    + destruct s; try discriminate E. exfalso. apply (Hp k0). reflexivity.
+  induction ops as [|op r IH]; intros p Hp k o; [apply Hp|].
+  rewrite run_from_cons. cbn [fst]. apply IH. intros k' o' E.
+  destruct p as [s k0 outst| |]; cbn [step] in E.
+  - destruct op as [nv key|t se kl|id| |].
+    + destruct s; try discriminate E. exfalso. apply (Hp k0 outst). reflexivity.
     + destruct s; try discriminate E. unfold handle_enc in E.
       destruct (negb t); [discriminate|]. destruct (negb se); [discriminate|]. destruct (negb kl); [discriminate|].
       destruct (outcome c); try discriminate E. unfold activate in E. destruct (has_ack c); discriminate E.
-    + destruct (has_plugin c); [|discriminate E]. inversion E; subst. apply (Hp k'). reflexivity.
+    + destruct (has_plugin c); [|discriminate E].
+      destruct (handle_plugin_cases c s k0 outst id) as [[o2 H]|[Hs H]]; rewrite H in E; cbn [fst] in E.
+      * inversion E; subst. apply (Hp k' outst). reflexivity.
+      * destruct (proceed_phase c k0) as [P|[P|P]]; rewrite P in E; discriminate E.
     + discriminate E.
     + discriminate E.
-  - destruct o; try discriminate E. destruct (has_plugin c); discriminate E.
+  - destruct op; try discriminate E. destruct (has_plugin c); discriminate E.
   - discriminate E.
 Qed.
 
-Lemma step_login_leaves_expected c p nv key k : fst (step c p (LoginStart nv key)) <> PInit LoginExpected k.
+Lemma step_login_leaves_expected c p nv key k o : fst (step c p (LoginStart nv key)) <> PInit LoginExpected k o.
 Proof.
-  destruct p as [s k0| |]; cbn [step fst]; try discriminate.
+  destruct p as [s k0 outst| |]; cbn [step fst]; try discriminate.
   destruct s; cbn [fst]; try discriminate.
   unfold handle_login. destruct (negb nv); [discriminate|].
-  destruct (if key_window c then key else KNone); try discriminate;
-  repeat match goal with
-  | |- context [if ?b then _ else _] => destruct b; cbn [fst]; try discriminate
-  | |- context [match pre c with _ => _ end] => destruct (pre c); cbn [fst]; try discriminate
-  end; unfold activate; destruct (has_ack c); discriminate.
+  assert (G : forall kk, fst (match queued_msgs c with [] => proceed c kk
+                  | _ :: _ => (PInit LoginReceived kk (queued_msgs c), map OPluginMsg (queued_msgs c)) end)
+              <> PInit LoginExpected k o).
+  { intro kk. destruct (queued_msgs c); [|discriminate].
+    destruct (proceed_phase c kk) as [P|[P|P]]; rewrite P; discriminate. }
+  destruct (if key_window c then key else KNone); try discriminate.
+  - destruct (key_window c && force_key c); [discriminate|]. destruct (pre c); try discriminate; apply G.
+  - destruct (pre c); try discriminate; apply G.
 Qed.
 
 Theorem repeated_login_start_out_of_order c pre nv key mid nv' key' :
@@ -111,14 +137,14 @@ Theorem repeated_login_start_out_of_order c pre nv key mid nv' key' :
 Proof.
   unfold final, run. rewrite run_from_app. cbn [fst]. rewrite run_from_cons. cbn [fst in_order].
   set (q := fst (step c (fst (run_from c init pre)) (LoginStart nv key))).
-  pose proof (not_login_expected_after c mid q (fun k => step_login_leaves_expected c _ nv key k)) as H.
-  destruct (fst (run_from c q mid)) as [s k| |]; try reflexivity.
-  destruct s; try reflexivity. exfalso. apply (H k). reflexivity.
+  pose proof (not_login_expected_after c mid q (fun k o => step_login_leaves_expected c _ nv key k o)) as H.
+  destruct (fst (run_from c q mid)) as [s k o| |]; try reflexivity.
+  destruct s; try reflexivity. exfalso. apply (H k o). reflexivity.
 Qed.
 
 (* ---- the chain of custody ---------------------------------------------------------------------- *)
 
-Definition all_plugin (l : list op) : Prop := Forall (fun o => o = PluginResp) l.
+Definition all_plugin (l : list op) : Prop := Forall (fun o => is_plugin_resp o = true) l.
 
 Definition full_chain : list out := [OEncRequest; OEncEnabled; OJoin; ORegister; OSuccess USession].
 
@@ -129,13 +155,16 @@ Definition Chain (c : cfg) (tr : list out) (done : list op) : Prop :=
     done = pre ++ ls :: mid ++ er :: post /\ good_login c ls = true /\ good_enc er = true /\
     all_plugin pre /\ all_plugin mid.
 
+(* one acceptable login start so far, and otherwise only plugin responses *)
+Definition AfterLogin (c : cfg) (done : list op) : Prop :=
+  exists pre ls mid, done = pre ++ ls :: mid /\ good_login c ls = true /\ all_plugin pre /\ all_plugin mid.
+
 Definition Inv (c : cfg) (p : phase) (tr : list out) (done : list op) : Prop :=
   match p with
-  | PInit LoginExpected _ => chain_of tr = [] /\ all_plugin done
-  | PInit EncRequestSent _ =>
-      chain_of tr = [OEncRequest] /\
-      exists pre ls mid, done = pre ++ ls :: mid /\ good_login c ls = true /\ all_plugin pre /\ all_plugin mid
-  | PInit _ _ => False
+  | PInit LoginExpected _ _ => chain_of tr = [] /\ all_plugin done
+  | PInit LoginReceived _ _ => chain_of tr = [] /\ AfterLogin c done      (* waiting for plugin answers *)
+  | PInit EncRequestSent _ _ => chain_of tr = [OEncRequest] /\ AfterLogin c done
+  | PInit _ _ _ => False
   | PAuthWait => Chain c tr done
   | PClosed => admitted tr = false \/ Chain c tr done
   end.
@@ -149,8 +178,17 @@ Proof.
   cbn [existsb filter]. rewrite IH. destruct x; reflexivity.
 Qed.
 
-Lemma all_plugin_snoc l : all_plugin l -> all_plugin (l ++ [PluginResp]).
+Lemma chain_of_plugin_msgs l : chain_of (map OPluginMsg l) = [].
+Proof. induction l; cbn; auto. Qed.
+
+Lemma all_plugin_snoc l id : all_plugin l -> all_plugin (l ++ [PluginResp id]).
 Proof. intro H. apply Forall_app. split; [exact H|constructor; [reflexivity|constructor]]. Qed.
+
+Lemma AfterLogin_snoc c done id : AfterLogin c done -> AfterLogin c (done ++ [PluginResp id]).
+Proof.
+  intros (pre_ & ls & mid & E & G & A1 & A2). exists pre_, ls, (mid ++ [PluginResp id]).
+  split; [rewrite E, <- app_assoc; reflexivity|]. split; [exact G|]. split; [exact A1|apply all_plugin_snoc; exact A2].
+Qed.
 
 Lemma Chain_extend c tr done os o :
   Chain c tr done -> chain_of os = [] -> Chain c (tr ++ os) (done ++ [o]).
@@ -160,8 +198,6 @@ Proof.
   exists pre, ls, mid, er, (post ++ [o]). repeat split; try assumption.
   rewrite E. rewrite <- !app_assoc. cbn [app]. rewrite <- app_assoc. reflexivity.
 Qed.
-
-Ltac solve_chain_nil := cbn [chain_of filter chain_event app]; reflexivity.
 
 (* one step preserves the invariant (effective online mode, no profile-providing transport) *)
 Lemma step_inv c p tr done o :
@@ -174,11 +210,22 @@ Proof.
             existsb is_admission (chain_of os) = false -> admitted (tr ++ os) = false).
   { intros os Ht Hos. rewrite admitted_chain, chain_of_app, existsb_app, Hos.
     destruct Ht as [-> | ->]; reflexivity. }
-  destruct p as [s k| |].
+  (* a plugin response in a state of the login handler: the set of ids changes, or the login continues *)
+  assert (Plug : forall s k outst id,
+            chain_of tr = [] \/ chain_of tr = [OEncRequest] ->
+            (forall o2, Inv c (PInit s k o2) tr (done ++ [PluginResp id])) ->
+            (s = LoginReceived -> chain_of tr = [] /\ AfterLogin c (done ++ [PluginResp id])) ->
+            Inv c (fst (handle_plugin c s k outst id)) (tr ++ snd (handle_plugin c s k outst id)) (done ++ [PluginResp id])).
+  { intros s k outst id Ht Hsame Hcont.
+    destruct (handle_plugin_cases c s k outst id) as [[o2 H]|[Hs H]]; rewrite H; cbn [fst snd].
+    - rewrite app_nil_r. apply Hsame.
+    - rewrite (proceed_online c k Hon Hpr). cbn [fst snd Inv].
+      destruct (Hcont Hs) as [Hc HA]. split; [rewrite chain_of_app, Hc; reflexivity|exact HA]. }
+  destruct p as [s k outst| |].
   - destruct s; cbn [Inv] in HI; try contradiction.
     + (* LoginExpected *)
       destruct HI as [Hc Hd].
-      destruct o as [nv key|t se kl| | |]; cbn [step].
+      destruct o as [nv key|t se kl|id| |]; cbn [step].
       * (* login start *)
         unfold handle_login.
         destruct nv; cbn [negb].
@@ -186,31 +233,42 @@ Proof.
         remember (if key_window c then key else KNone) as kk eqn:Ek.
         assert (Bye : Inv c PClosed (tr ++ [ODisconnect; OClose]) (done ++ [LoginStart true key])).
         { cbn [Inv]. left. apply NoAdm; [left; exact Hc|reflexivity]. }
+        assert (Go : good_login c (LoginStart true key) = true ->
+                Inv c (fst (match queued_msgs c with [] => proceed c kk
+                        | _ :: _ => (PInit LoginReceived kk (queued_msgs c), map OPluginMsg (queued_msgs c)) end))
+                      (tr ++ snd (match queued_msgs c with [] => proceed c kk
+                        | _ :: _ => (PInit LoginReceived kk (queued_msgs c), map OPluginMsg (queued_msgs c)) end))
+                      (done ++ [LoginStart true key])).
+        { intro G.
+          assert (AL : AfterLogin c (done ++ [LoginStart true key])).
+          { exists done, (LoginStart true key), []. split; [reflexivity|]. split; [exact G|]. split; [exact Hd|constructor]. }
+          destruct (queued_msgs c) as [|a r].
+          - rewrite (proceed_online c kk Hon Hpr). cbn [fst snd Inv].
+            split; [rewrite chain_of_app, Hc; reflexivity|exact AL].
+          - cbn [fst snd Inv]. split; [rewrite chain_of_app, Hc, chain_of_plugin_msgs; reflexivity|exact AL]. }
         destruct kk; try exact Bye.
-        -- (* KNone *)
-           destruct (key_window c && force_key c) eqn:Ef; [exact Bye|].
-           destruct (pre c) eqn:Epre; try exact Bye;
-           rewrite Hon, Hpr; cbn [fst snd Inv];
-           (split; [rewrite chain_of_app, Hc; reflexivity|]);
-           exists done, (LoginStart true key), []; (split; [reflexivity|]);
-           (split; [|split; [exact Hd|constructor]]);
-           cbn [good_login]; rewrite <- Ek, Ef, Epre; reflexivity.
-        -- (* KValid *)
-           destruct (pre c) eqn:Epre; try exact Bye;
-           rewrite Hon, Hpr; cbn [fst snd Inv];
-           (split; [rewrite chain_of_app, Hc; reflexivity|]);
-           exists done, (LoginStart true key), []; (split; [reflexivity|]);
-           (split; [|split; [exact Hd|constructor]]);
-           cbn [good_login]; rewrite <- Ek, Epre; reflexivity.
+        -- destruct (key_window c && force_key c) eqn:Ef; [exact Bye|].
+           destruct (pre c) eqn:Epre; try exact Bye; apply Go; cbn [good_login]; rewrite <- Ek, Ef, Epre; reflexivity.
+        -- destruct (pre c) eqn:Epre; try exact Bye; apply Go; cbn [good_login]; rewrite <- Ek, Epre; reflexivity.
       * cbn [fst snd Inv]. left. apply NoAdm; [left; exact Hc|reflexivity].
-      * destruct (has_plugin c); cbn [fst snd Inv].
-        -- rewrite app_nil_r. split; [exact Hc|apply all_plugin_snoc; exact Hd].
-        -- left. apply NoAdm; [left; exact Hc|reflexivity].
+      * destruct (has_plugin c).
+        -- apply Plug; [left; exact Hc| |discriminate].
+           intro o2. cbn [Inv]. split; [exact Hc|apply all_plugin_snoc; exact Hd].
+        -- cbn [fst snd Inv]. left. apply NoAdm; [left; exact Hc|reflexivity].
       * cbn [fst snd Inv]. left. apply NoAdm; [left; exact Hc|reflexivity].
+      * cbn [fst snd Inv]. left. apply NoAdm; [left; exact Hc|reflexivity].
+    + (* LoginReceived: waiting for the answers to the pre-login plugin messages *)
+      destruct HI as [Hc HA].
+      destruct o as [nv key|t se kl|id| |]; cbn [step];
+        try (cbn [fst snd Inv]; left; apply NoAdm; [left; exact Hc|reflexivity]).
+      destruct (has_plugin c).
+      * apply Plug; [left; exact Hc| |].
+        -- intro o2. cbn [Inv]. split; [exact Hc|apply AfterLogin_snoc; exact HA].
+        -- intros _. split; [exact Hc|apply AfterLogin_snoc; exact HA].
       * cbn [fst snd Inv]. left. apply NoAdm; [left; exact Hc|reflexivity].
     + (* EncRequestSent *)
-      destruct HI as [Hc (pre_ & ls & mid & E & G & A1 & A2)].
-      destruct o as [nv key|t se kl| | |]; cbn [step].
+      destruct HI as [Hc HA].
+      destruct o as [nv key|t se kl|id| |]; cbn [step].
       * cbn [fst snd Inv]. left. apply NoAdm; [right; exact Hc|reflexivity].
       * unfold handle_enc.
         destruct t; cbn [negb]; [|cbn [fst snd Inv]; left; apply NoAdm; [right; exact Hc|reflexivity]].
@@ -218,7 +276,7 @@ Proof.
         destruct kl; cbn [negb]; [|cbn [fst snd Inv]; left; apply NoAdm; [right; exact Hc|reflexivity]].
         destruct (outcome c) eqn:Eo;
           try (cbn [fst snd Inv]; left; apply NoAdm; [right; exact Hc|reflexivity]).
-        (* SProfile: admission with the full chain *)
+        destruct HA as (pre_ & ls & mid & E & G & A1 & A2).
         assert (CH : forall os, chain_of os = [OEncEnabled; OJoin; ORegister; OSuccess USession] ->
                      Chain c (tr ++ os) (done ++ [EncResp true true true])).
         { intros os Hos. split; [exact Eo|]. split; [rewrite chain_of_app, Hc, Hos; reflexivity|].
@@ -226,16 +284,15 @@ Proof.
           repeat split; try assumption. rewrite E, <- app_assoc. reflexivity. }
         unfold activate. destruct (has_ack c), (compress c); cbn [fst snd Inv app];
           try (right); apply CH; reflexivity.
-      * destruct (has_plugin c); cbn [fst snd Inv].
-        -- rewrite app_nil_r. split; [exact Hc|].
-           exists pre_, ls, (mid ++ [PluginResp]). split; [rewrite E, <- app_assoc; reflexivity|].
-           split; [exact G|]. split; [exact A1|apply all_plugin_snoc; exact A2].
-        -- left. apply NoAdm; [right; exact Hc|reflexivity].
+      * destruct (has_plugin c).
+        -- apply Plug; [right; exact Hc| |discriminate].
+           intro o2. cbn [Inv]. split; [exact Hc|apply AfterLogin_snoc; exact HA].
+        -- cbn [fst snd Inv]. left. apply NoAdm; [right; exact Hc|reflexivity].
       * cbn [fst snd Inv]. left. apply NoAdm; [right; exact Hc|reflexivity].
       * cbn [fst snd Inv]. left. apply NoAdm; [right; exact Hc|reflexivity].
   - (* PAuthWait *)
     cbn [Inv] in HI.
-    destruct o as [nv key|t se kl| | |]; cbn [step fst snd Inv];
+    destruct o as [nv key|t se kl|id| |]; cbn [step fst snd Inv];
       try (right; apply Chain_extend; [exact HI|reflexivity]).
     destruct (has_plugin c); cbn [fst snd Inv].
     + apply Chain_extend; [exact HI|reflexivity].
@@ -276,10 +333,8 @@ Proof.
   pose proof (run_inv c Hon Hpr ops init [] [] I0) as H. cbn [app] in H.
   unfold trace, outs, run in *.
   rewrite admitted_chain in Hadm.
-  destruct (fst (run_from c init ops)) as [s k| |]; cbn [Inv] in H.
-  - destruct s; try contradiction.
-    + destruct H as [Hc _]. rewrite Hc in Hadm. discriminate.
-    + destruct H as [Hc _]. rewrite Hc in Hadm. discriminate.
+  destruct (fst (run_from c init ops)) as [s k o| |]; cbn [Inv] in H.
+  - destruct s; try contradiction; destruct H as [Hc _]; rewrite Hc in Hadm; discriminate.
   - exact H.
   - destruct H as [H|H]; [rewrite admitted_chain in H; congruence|exact H].
 Qed.
@@ -287,7 +342,7 @@ Qed.
 (* ---- the bypasses and the identity that is announced (forwarding clause of C10) ---------------- *)
 
 Definition Inv2 (p : phase) : Prop :=
-  match p with PInit LoginExpected _ | PAuthWait | PClosed => True | _ => False end.
+  match p with PInit LoginExpected _ _ | PInit LoginReceived _ _ | PAuthWait | PClosed => True | _ => False end.
 
 Lemma activate_src c v u : In (OSuccess u) (snd (activate c v)) -> u = v.
 Proof.
@@ -297,25 +352,46 @@ Qed.
 Lemma activate_phase c v : Inv2 (fst (activate c v)).
 Proof. unfold activate. destruct (has_ack c); exact I. Qed.
 
+Lemma proceed_offline c k : effective_online c = false -> proceed c k = activate c UOffline.
+Proof. intro H. unfold proceed. rewrite H. reflexivity. Qed.
+
+Lemma no_success_in_msgs l u : ~ In (OSuccess u) (map OPluginMsg l).
+Proof. induction l; cbn; intuition discriminate. Qed.
+
 Lemma step_offline c p o : effective_online c = false -> Inv2 p ->
   Inv2 (fst (step c p o)) /\ forall u, In (OSuccess u) (snd (step c p o)) -> u = UOffline.
 Proof.
-  intros Hoff HI. destruct p as [s k| |]; cbn [Inv2] in HI.
+  intros Hoff HI.
+  assert (Plug : forall s k outst id, Inv2 (PInit s k []) ->
+            Inv2 (fst (handle_plugin c s k outst id)) /\
+            forall u, In (OSuccess u) (snd (handle_plugin c s k outst id)) -> u = UOffline).
+  { intros s k outst id Hs.
+    destruct (handle_plugin_cases c s k outst id) as [[o2 H]|[E H]]; rewrite H.
+    - split; [destruct s; exact Hs|cbn; contradiction].
+    - rewrite (proceed_offline c k Hoff). split; [apply activate_phase|apply activate_src]. }
+  destruct p as [s k outst| |]; cbn [Inv2] in HI.
   - destruct s; try contradiction.
-    destruct o as [nv key|t se kl| | |]; cbn [step].
-    + unfold handle_login. rewrite Hoff.
-      destruct (negb nv); [split; [exact I|cbn; intuition discriminate]|].
-      destruct (if key_window c then key else KNone);
-        try (split; [exact I|cbn; intuition discriminate]).
-      * destruct (key_window c && force_key c); [split; [exact I|cbn; intuition discriminate]|].
-        destruct (pre c); try (split; [apply activate_phase|apply activate_src]).
-        split; [exact I|cbn; intuition discriminate].
-      * destruct (pre c); try (split; [apply activate_phase|apply activate_src]).
-        split; [exact I|cbn; intuition discriminate].
-    + split; [exact I|cbn; intuition discriminate].
-    + destruct (has_plugin c); (split; [exact I|cbn; intuition discriminate]).
-    + split; [exact I|cbn; intuition discriminate].
-    + split; [exact I|cbn; intuition discriminate].
+    + destruct o as [nv key|t se kl|id| |]; cbn [step].
+      * unfold handle_login.
+        destruct (negb nv); [split; [exact I|cbn; intuition discriminate]|].
+        assert (G : forall kk, Inv2 (fst (match queued_msgs c with [] => proceed c kk
+                        | _ :: _ => (PInit LoginReceived kk (queued_msgs c), map OPluginMsg (queued_msgs c)) end)) /\
+                    forall u, In (OSuccess u) (snd (match queued_msgs c with [] => proceed c kk
+                        | _ :: _ => (PInit LoginReceived kk (queued_msgs c), map OPluginMsg (queued_msgs c)) end)) -> u = UOffline).
+        { intro kk. destruct (queued_msgs c) as [|a r].
+          - rewrite (proceed_offline c kk Hoff). split; [apply activate_phase|apply activate_src].
+          - cbn [fst snd]. split; [exact I|]. intros u H. exfalso. exact (no_success_in_msgs _ _ H). }
+        destruct (if key_window c then key else KNone);
+          try (split; [exact I|cbn; intuition discriminate]).
+        -- destruct (key_window c && force_key c); [split; [exact I|cbn; intuition discriminate]|].
+           destruct (pre c); try apply G. split; [exact I|cbn; intuition discriminate].
+        -- destruct (pre c); try apply G. split; [exact I|cbn; intuition discriminate].
+      * split; [exact I|cbn; intuition discriminate].
+      * destruct (has_plugin c); [apply Plug; exact I|split; [exact I|cbn; intuition discriminate]].
+      * split; [exact I|cbn; intuition discriminate].
+      * split; [exact I|cbn; intuition discriminate].
+    + destruct o as [nv key|t se kl|id| |]; cbn [step]; try (split; [exact I|cbn; intuition discriminate]).
+      destruct (has_plugin c); [apply Plug; exact I|split; [exact I|cbn; intuition discriminate]].
   - destruct o; cbn [step]; try (split; [exact I|cbn; intuition discriminate]).
     destruct (has_plugin c); (split; [exact I|cbn; intuition discriminate]).
   - cbn [step]. split; [exact I|cbn; contradiction].
@@ -338,13 +414,14 @@ Qed.
 
 (* ---- non-vacuity ------------------------------------------------------------------------------ *)
 
-Definition cfg_online : cfg := mkCfg true PAllow false true true true false true SProfile.
-Definition cfg_offline : cfg := mkCfg false PAllow false true true true false true SProfile.
+Definition cfg_online : cfg := mkCfg true PAllow false true true true false true SProfile 0.
+Definition cfg_online_msgs : cfg := mkCfg true PAllow false true true true false true SProfile 2.
+Definition cfg_offline : cfg := mkCfg false PAllow false true true true false true SProfile 0.
 
 Example chain_example :
   effective_online cfg_online = true /\ provider cfg_online = false /\
-  admitted (trace cfg_online [LoginStart true KNone; PluginResp; EncResp true true true; LoginAck]) = true /\
-  outs cfg_online [LoginStart true KNone; PluginResp; EncResp true true true; LoginAck]
+  admitted (trace cfg_online [LoginStart true KNone; PluginResp 7; EncResp true true true; LoginAck]) = true /\
+  outs cfg_online [LoginStart true KNone; PluginResp 7; EncResp true true true; LoginAck]
   = [[OEncRequest]; []; [OEncEnabled; OJoin; OSetCompression; ORegister; OSuccess USession]; [OPost; OClose]].
 Proof. vm_compute. repeat split; reflexivity. Qed.
 
@@ -355,6 +432,16 @@ Example out_of_order_example :
   outs cfg_online [LoginStart true KNone; LoginStart true KNone; EncResp true true true]
   = [[OEncRequest]; [OClose]; []].
 Proof. vm_compute. repeat split; try reflexivity. discriminate. Qed.
+
+(* a PreLogin subscriber sent two plugin messages: the login waits; a second login start meanwhile is
+   out of order and closes; answered in any order (with a duplicate and an unknown id) it continues *)
+Example waiting_example :
+  outs cfg_online_msgs [LoginStart true KNone; LoginStart true KNone; PluginResp 1; PluginResp 2; EncResp true true true]
+  = [[OPluginMsg 1; OPluginMsg 2]; [OClose]; []; []; []] /\
+  in_order cfg_online_msgs (final cfg_online_msgs [LoginStart true KNone]) (LoginStart true KNone) = false /\
+  outs cfg_online_msgs [LoginStart true KNone; PluginResp 2; PluginResp 2; PluginResp 9; PluginResp 1; EncResp true true true]
+  = [[OPluginMsg 1; OPluginMsg 2]; []; []; []; [OEncRequest]; [OEncEnabled; OJoin; OSetCompression; ORegister; OSuccess USession]].
+Proof. vm_compute. repeat split; reflexivity. Qed.
 
 Example offline_example :
   effective_online cfg_offline = false /\
